@@ -140,7 +140,17 @@ class C02(Prop):
                     ops.append("close")
                 out.append({"name": "bound%d" % c, "ops": ops, "sticky": 1})
                 continue
-            if r < 0.45:
+            if r < 0.165:
+                data, meta = S.gen_hmmpgmd(rng, rng.choice(["dna", "amino"]))
+                if rng.random() < 0.5:
+                    data = self.mutate(rng, data)
+                natural = "hmmpgmd"
+            elif r < 0.19:
+                data, meta = S.gen_daemon(rng, rng.choice(["dna", "amino"]))
+                if rng.random() < 0.6:
+                    data = self.mutate(rng, data)
+                natural = "daemon"
+            elif r < 0.45:
                 fn = rng.choice(names)
                 data = self.mutate(rng, seeds[fn])
                 natural = "fasta" if fn.startswith("fasta") else "genbank" if fn.startswith("genbank") else "stockholm" if fn.startswith("stockholm") else fn
